@@ -84,9 +84,15 @@ func vhRun(t *testing.T, tr *vlib.Trace, out string, n, thr, k int, seed int64) 
 			atomic.AddInt64(&returned, 1)
 		}()
 	}
-	// quiescence: the number of returned calls is stable for a while
+	// quiescence: every call the buffer has room for has returned (slow machines: up to 30 s), and then the count
+	// stays put for a second (a hand-over that does not block lets the remaining calls return at once)
+	room := capacity - buffered
+	if room > k {
+		room = k
+	}
+	vlib.Eventually(30*time.Second, func() bool { return int(atomic.LoadInt64(&returned)) >= room })
 	last, stable := int64(-1), 0
-	for deadline := time.Now().Add(15 * time.Second); time.Now().Before(deadline) && stable < 10; {
+	for deadline := time.Now().Add(15 * time.Second); time.Now().Before(deadline) && stable < 20; {
 		time.Sleep(50 * time.Millisecond)
 		if cur := atomic.LoadInt64(&returned); cur == last {
 			stable++
